@@ -371,7 +371,7 @@ func crashPropOf(flavour string) string {
 
 // the object an open failure is most likely about: the error text names the path, the class list comes from the image
 func crashOpenFailClass(a *crashAbs, open string) string {
-	if strings.Contains(open, "valuenil") || strings.Contains(open, "keynil") {
+	if strings.Contains(open, "valuenil") || strings.Contains(open, "keynil") || strings.Contains(open, "emptykv") {
 		return "rejected-call-reached-the-log" // the replay hands the memstore a record it refuses
 	}
 	cls := a.Class()
@@ -1001,6 +1001,32 @@ func runCrash(res *Result, drv *Driver, seed uint64, n int, tier string, only in
 			}
 		}
 
+		if s.Bare && drv != nil {
+			if err := crashCmpWalEvents(res, drv, idx, run); err != nil {
+				return fmt.Errorf("session %d: %w", idx, err)
+			}
+		}
+
+		// an Open() inside the session that fails: the directory a clean or unclean predecessor left behind cannot be
+		// opened any more. The child ended the session there.
+		for i, o := range s.Ops {
+			if o.Kind == "open" && o.Result != "" && !o.ok() {
+				var at *crashImage
+				for _, im := range run.Images {
+					if im.EvIdx <= o.BIdx {
+						at = im
+					}
+				}
+				if at == nil {
+					at = run.Images[0]
+				}
+				res.Stat("session-reopen-fails")
+				ev.violateAt(at, ev.prop, "session-reopen-fails:"+crashOpenFailClass(at.Abs, o.Result),
+					fmt.Sprintf("op %d (%s) of the live session returned %s", i, o.Line, o.Result),
+					ev.caseStr(at, &crashProbe{Raw: "(live session) open=" + o.Result}, ""))
+			}
+		}
+
 		// weights and sampling
 		sel := crashSelectImages(run, thorough)
 		res.StatN("image-entries-checked", len(sel))
@@ -1148,26 +1174,37 @@ func crashRunNested(res *Result, ev *crashEval, run *crashRun, sel []*crashImage
 		}
 	}
 	if !thorough {
+		// one image per distinct recovery situation (log files with their record counts, compaction directories,
+		// kind of table leftovers), the most telling situations first; never dropped: several log files with records
+		// (the order in which recovery removes them matters), flagged compactions, half deleted tables
 		limit := 8
 		if crashFlavour == "nested" {
 			limit = 24
 		}
-		sort.SliceStable(cands, func(i, j int) bool {
-			return crashClassWeight(cands[i].Abs.Class()) > crashClassWeight(cands[j].Abs.Class())
-		})
-		var first, rest []*crashImage
-		shapeSeen := map[string]bool{}
-		for _, im := range cands {
-			if sh := im.Abs.Shape(); !shapeSeen[sh] {
-				shapeSeen[sh] = true
-				first = append(first, im)
-			} else {
-				rest = append(rest, im)
-			}
+		type scored struct {
+			im    *crashImage
+			score int
 		}
-		cands = append(first, rest...)
-		if len(cands) > limit {
-			cands = cands[:limit]
+		var list []scored
+		seenKey := map[string]bool{}
+		for _, im := range cands {
+			key, score := crashNestedKey(im.Abs)
+			if seenKey[key] {
+				continue
+			}
+			seenKey[key] = true
+			list = append(list, scored{im, score})
+		}
+		sort.SliceStable(list, func(i, j int) bool { return list[i].score > list[j].score })
+		cands = cands[:0]
+		for i, x := range list {
+			if i >= limit && x.score < 80 {
+				break
+			}
+			if i >= 2*limit {
+				break
+			}
+			cands = append(cands, x.im)
 		}
 	}
 	res.StatN("nested:depth1-images-recovered-under-trace", len(cands))
@@ -1242,4 +1279,120 @@ func crashRunNested(res *Result, ev *crashEval, run *crashRun, sel []*crashImage
 		}
 	}
 	return nil
+}
+
+// crashCmpWalEvents ties the event list C07's crash theorem quantifies over (SST.C07.replay_after_crash, driver command
+// wal.events) to the system calls of the real appender: per call (NewAppender, every Append/AppendSync/Rotate, Close)
+// the same creates, write calls with the same lengths, fsyncs and closes, in the same order.
+func crashCmpWalEvents(res *Result, drv *Driver, idx int, run *crashRun) error {
+	s := run.S
+	if len(s.Ops) == 0 || s.Ops[0].Kind != "walopen" {
+		return nil
+	}
+	f := strings.Fields(s.Ops[0].Line)
+	if len(f) != 3 {
+		return nil
+	}
+	buf := f[2]
+	if buf == "0" {
+		buf = "4194304"
+	}
+	var ops []string
+	closed := false
+	for _, o := range s.Ops[1:] {
+		switch o.Kind {
+		case "append", "appendsync":
+			if strings.HasPrefix(o.ValTok, "g") {
+				res.Stat("model:wal.events-skipped-record-too-big-for-the-line-protocol")
+				return nil
+			}
+			if o.Kind == "append" {
+				ops = append(ops, "a:"+o.ValTok)
+			} else {
+				ops = append(ops, "s:"+o.ValTok)
+			}
+		case "walrotate":
+			ops = append(ops, "r")
+		case "walclose":
+			closed = true
+		}
+	}
+	model, err := drv.Ask(fmt.Sprintf("wal.events max=%s buf=%s comp=0 oracle= ops=%s", f[1], buf, strings.Join(ops, ",")))
+	if err != nil {
+		return err
+	}
+	var groups []string
+	for _, o := range s.Ops {
+		if o.BIdx < 0 || o.EIdx < 0 {
+			return nil // the child died, nothing to compare
+		}
+		var evs []string
+		for _, e := range run.Events[o.BIdx+1 : o.EIdx] {
+			switch e.Kind {
+			case "create":
+				evs = append(evs, "c:"+e.Path)
+			case "write":
+				evs = append(evs, fmt.Sprintf("w:%s:%d", e.Path, len(e.Data)))
+			case "fsync":
+				evs = append(evs, "f:"+e.Path)
+			case "close":
+				evs = append(evs, "x:"+e.Path)
+			default:
+				evs = append(evs, e.Kind+":"+e.Path)
+			}
+		}
+		groups = append(groups, strings.Join(evs, ","))
+	}
+	if !closed {
+		// the session ends without Close: the model's last group has no counterpart
+		mg := strings.Split(model, "/")
+		if len(mg) > 0 && !strings.Contains(model, "bad-op") {
+			model = strings.Join(mg[:len(mg)-1], "/")
+		}
+	}
+	res.Stat("model:wal.events-compared")
+	res.Cmp(idx, "wal.events (system calls per appender call)", strings.ReplaceAll(model, "/", " / "), strings.ReplaceAll(strings.Join(groups, "/"), "/", " / "), s.Describe())
+	return nil
+}
+
+// crashNestedKey: what the recovery of an image has to do (its situation) and how telling that is for C10
+func crashNestedKey(a *crashAbs) (string, int) {
+	var w, c []string
+	withRecords := 0
+	for _, x := range a.Wals {
+		w = append(w, fmt.Sprintf("%s:%s", x.Name, x.shape()))
+		if x.Records > 0 {
+			withRecords++
+		}
+	}
+	flagged := false
+	for _, x := range a.Comps {
+		c = append(c, fmt.Sprintf("%v:%s", x.Flagged, x.Table.State))
+		flagged = flagged || x.Flagged
+	}
+	partial, half := 0, false
+	for _, t := range a.Tables {
+		if t.State != "complete" {
+			partial++
+			for _, f := range t.Present {
+				half = half || f == "meta.pb.bin"
+			}
+		}
+	}
+	score := 10
+	switch {
+	case withRecords >= 2:
+		score = 100
+	case flagged:
+		score = 90
+	case half:
+		score = 80
+	case partial > 0 && withRecords > 0:
+		score = 50
+	case len(a.Comps) > 0:
+		score = 40
+	case withRecords > 0:
+		score = 30
+	}
+	return fmt.Sprintf("W[%s] C[%s] partial=%v half=%v tables=%d", strings.Join(w, " "), strings.Join(c, " "), partial > 0, half, len(a.Tables)), score
 }
